@@ -18,6 +18,7 @@ var (
 	greek      = []rune("ΑΒΓΔΕΖΗΘΙΚΛΜΝΞΟΠΡΣΤΥΦΧΨΩαβγδεζηθικλμνξοπρςστυφχψωάέήίόύώ")
 	cyrillic   = []rune("АБВГДЕЖЗИЙКЛМНОПРСТУФХЦЧШЩЪЫЬЭЮЯабвгдежзийклмнопрстуфхцчшщъыьэюяЁёЂђЄєІіЇїЉљЊњЋћЎўЏџ")
 	punct      = []rune("!\"#$%&'()*+,-./:;<=>?@[\\]^_`{|}~¡¢£¤¥¦§¨©ª«¬®¯°±²³´µ¶·¸¹º»¼½¾¿–—‘’‚“”„†‡•…‰‹›€™ ")
+	ligWords   = []string{"office", "waffle", "affix", "fjord", "ffi", "ffl", "ff", "fi", "fl", "baffling efficient fluff", "offfice"}
 	ligatures  = []string{"ffi", "ffl", "ff", "fi", "fl", "ft", "fj", "ﬁ", "ﬂ", "AV", "VA", "To", "Ty", "office", "waffle", "fi ﬁ", "fl ﬂ"}
 	singles    = []rune("ΩÅK;·µ`ÉñüЙё")
 	overTexts  = []string{"a", "b", "X", "Y", "é", "ß", "Ω", "α", "д", "Я", "ffi", "fl", "st", "ct", " ", "-", "…", "—", "1", "x̂", "ﬁ", "A", "e"}
@@ -83,11 +84,15 @@ func genAtom(t *rapid.T) string {
 	case 10:
 		return rapid.SampledFrom(ligatures).Draw(t, "lig")
 	default:
-		if rapid.IntRange(0, 3).Draw(t, "outside") == 0 {
+		switch rapid.IntRange(0, 3).Draw(t, "outside") {
+		case 0:
 			// outside the repertoire of every test font: shown as glyph 0
 			return pick(outside)
+		case 1:
+			// U+0000 has a glyph with zero advance in the proportional Go fonts
+			return "\x00"
 		}
-		return rapid.SampledFrom(ligatures).Draw(t, "lig")
+		return rapid.SampledFrom(ligWords).Draw(t, "ligword")
 	}
 }
 
@@ -143,7 +148,16 @@ func genHow(t *rapid.T) int {
 	return h
 }
 
-var familyNames = []string{"type1", "type3", "standard", "cff", "cff", "truetype", "truetype", "opentype", "opentype"}
+var familyNames = []string{"type1", "type3", "standard", "extended", "cff", "cff", "truetype", "truetype", "opentype", "opentype"}
+
+// pickKey is the generator group of a kind: its family, except that the 14
+// fonts of font/extended (family type1) form a group of their own.
+func pickKey(k *fontKind) string {
+	if strings.HasPrefix(k.Label, "ext:") {
+		return "extended"
+	}
+	return k.Family
+}
 
 // byFamily lists the catalogue indices per family, simple and composite apart.
 var byFamily = map[string][2][]int{}
@@ -151,13 +165,13 @@ var byFamily = map[string][2][]int{}
 // fillByFamily is called at the end of the catalogue's init function.
 func fillByFamily() {
 	for i := range kinds {
-		e := byFamily[kinds[i].Family]
+		e := byFamily[pickKey(&kinds[i])]
 		j := 0
 		if kinds[i].Composite() {
 			j = 1
 		}
 		e[j] = append(e[j], i)
-		byFamily[kinds[i].Family] = e
+		byFamily[pickKey(&kinds[i])] = e
 	}
 }
 
@@ -169,6 +183,10 @@ func genKind(t *rapid.T) int {
 	j := min(rapid.IntRange(0, 4).Draw(t, "composite"), 1)
 	if len(e[j]) == 0 {
 		j = 1 - j
+	}
+	if f == "extended" && rapid.IntRange(0, 2).Draw(t, "nimbus") != 0 {
+		// the eight Nimbus Roman / Sans faces: the ones with ffi and ffl
+		return e[j][rapid.IntRange(5, 12).Draw(t, "kind")]
 	}
 	return rapid.SampledFrom(e[j]).Draw(t, "kind")
 }
@@ -256,6 +274,17 @@ func genCase(t *rapid.T) Case {
 		if rapid.IntRange(0, 1).Draw(t, "withover") == 0 {
 			run.Over = genOver(t, len([]rune(run.Text)))
 		}
+		if rapid.IntRange(0, 3).Draw(t, "withzero") == 0 {
+			// glyphs with zero advance, chosen by glyph ID
+			n := rapid.IntRange(1, 3).Draw(t, "nzero")
+			for k := 0; k < n; k++ {
+				run.Zero = append(run.Zero, ZeroGlyph{
+					Pos:  rapid.IntRange(0, maxRunes).Draw(t, "zpos"),
+					Pick: rapid.IntRange(0, 3).Draw(t, "zpick"),
+					Text: rapid.SampledFrom([]string{"\u0301", "\u0308", "", "\x00", "'", "a"}).Draw(t, "ztext"),
+				})
+			}
+		}
 		if run.How == howGlyphs && rapid.IntRange(0, 2).Draw(t, "withrise") == 0 {
 			run.Rise = rapid.SliceOfN(rapid.IntRange(0, maxRunes-1), 1, 3).Draw(t, "rise")
 		}
@@ -326,6 +355,12 @@ func classify(c *Case) (bool, []string) {
 		add(o.ligature, "ligature")
 		add(o.override, "override")
 		add(o.riseChange, "rise-change-inside-run")
+		add(o.nimbus, "kind/extended-nimbus")
+		add(o.chained, "ligature/chained-ffi-or-ffl")
+		add(o.zeroAdv, "width/zero-advance-glyph")
+		add(o.zeroAdvComposite, "width/zero-advance-glyph-composite")
+		add(o.zeroByGID, "width/zero-advance-glyph-by-glyph-id")
+		add(o.wholeRun, "whole-run-text-equals-input")
 		add(o.modeNot0, "render-mode/other-than-0")
 		add(o.mode7, "render-mode/7-clip")
 		add(o.invisible, "render-mode/3-invisible-not-reported-by-reader")
@@ -387,6 +422,24 @@ var prop = &vt.Prop[Case]{
 
 func init() { vt.Register(prop) }
 
-func TestRandom(t *testing.T) { prop.Run(t, vt.NewStats(property, "random")) }
+func TestRandom(t *testing.T) {
+	st := vt.NewStats(property, "random")
+	// which kinds have glyphs with zero advance at all (other than glyph 0)
+	zero := map[string]int{}
+	with := 0
+	for i := range kinds {
+		F, err := kinds[i].Make()
+		if err != nil {
+			t.Fatalf("%s: %v", kinds[i].Label, err)
+		}
+		if n := len(zeroAdvanceGlyphs(F.GetGeometry().Widths)); n > 0 {
+			zero[kinds[i].Label] = n
+			with++
+		}
+	}
+	st.SetExtra("zero_advance_glyphs_per_kind", zero)
+	st.Note("%d of %d font kinds have a glyph with zero advance (the glyph for U+0000 of every kind derived from a proportional Go font; no kind has combining marks)", with, len(kinds))
+	prop.Run(t, st)
+}
 
 func TestReplay(t *testing.T) { vt.RunReplay(t) }
